@@ -494,10 +494,15 @@ fn build_decoys(claims: &mut Value, decoy_count: i32) -> Result<Vec<Decoy>, Erro
         decoy_list.push(new_decoy);
     }
 
+    // decoys go into the top-level digest list, which does not exist yet when only nested
+    // claims are disclosable
     let sd_array = claims
-        .get_mut("_sd")
-        .and_then(Value::as_array_mut)
-        .ok_or(Error::InvalidPathPointer)?;
+        .as_object_mut()
+        .ok_or(Error::InvalidPathPointer)?
+        .entry("_sd")
+        .or_insert_with(|| Value::Array(Vec::new()))
+        .as_array_mut()
+        .ok_or(Error::InvalidSDType)?;
     decoy_list.iter().for_each(|decoy| {
         sd_array.push(Value::from(decoy.digest().as_str()));
     });
